@@ -626,6 +626,32 @@ class Intrinsics:
         f = z3.Function(f'ghost_{name}', *([z3.IntSort()] * (len(zs) + 1)))
         return f(*zs)
 
+    def s_apply_lemma(self, P, name, **kw):
+        """
+        lemma application (as in Dafny): the lemma's precondition becomes an obligation `pre@<Lemma>[..]` of the
+        caller, its postcondition an assumption.  The lemma itself is verified separately (it is a contract).
+        """
+        ex = self.ex
+        c = ex.contracts.get(name)
+        if c is None or c.kind != 'lemma':
+            raise InterpError(f'apply_lemma: no lemma named {name}')
+        if ex.current is not None and ex.current.name == name:
+            raise InterpError('apply_lemma: a lemma may not apply itself')
+        missing = [q for q in c.params if q not in kw]
+        if missing:
+            raise InterpError(f'apply_lemma({name}): missing arguments {missing}')
+        bound = {q: kw[q] for q in c.params}
+        if c.pre is not None:
+            for k, cond in ex._call_spec(P, c.pre, bound).items():
+                cond = P.truthy(cond)
+                P.oblige(f'pre@{name}[{k}]', 'pre', cond)
+                P.assume(cond, fact=True)
+        if c.post is not None:
+            for k, cond in ex._call_spec(P, c.post, bound).items():
+                P.assume(P.truthy(cond), fact=True)
+        P.modular.add(name)
+        return True
+
     def s_ambient(self, P):
         """innermost active `with` model object (None outside any `with`)"""
         st = getattr(P, 'with_stack', None)
